@@ -12,6 +12,10 @@ CLAIMED = {
          'trusted: Coq kernel incl. vm_compute; hand model Model/Action.v tied by the correspondence run (432 cases quick); mapping of Python values to return tags; subprocess/StringIO/inspect are oracles',
          'DESIGN.md 5-C17'),
 }
+CLAIMED['C07'] = ('Coq refinement proofs (simulation relation per backend, induction over the operation list) of Model/Backends.v to an abstract map + exhaustive/random correspondence against JsonDB/DbmDB/SqliteDB',
+         'proof: each backend model answers exactly as the abstract map task->{key->value} for EVERY finite sequence of set/get/in_/remove/remove_all/close-and-reopen; corollaries: removed tasks never reappear, reopen preserves contents, the three backends are observationally equal; the two pre-repair behaviours are kept as legacy-refuted witnesses',
+         'trusted: Coq kernel; hand model Model/Backends.v tied by exhaustive op sequences (len<=3 quick, <=4 thorough) + sampled/random ones against the real classes; JSON codec round-trip is a hypothesis (codec_ok) exercised on unicode/nested values; dbm.dumb, sqlite3, the file system are oracles',
+         'DESIGN.md 5-C07')
 NOT_YET = {}
 
 def main():
